@@ -233,12 +233,12 @@ def units(tier):
         def load_all(self, stream, Loader=None):
             return iter(copy.deepcopy(self.texts[self._read(stream)]))
 
-    def mk_yaml(route):
+    def mk_yaml(route, empty=False):
         def mk(c):
             cfg = ES.SiftConfig.__new__(ES.SiftConfig)
             cfg.sift_type = 'mask_sift'
-            cfg.store = {'max_imfs': 4, 'mask_amp': np.array([1.0, 0.5]), 'imf_opts': {'rilling_thresh': (0.05, 0.5, 0.05), 'stop_method': 'rilling'},
-                         'extrema_opts': {'pad_width': 3, 'loc_pad_opts': {'mode': 'reflect', 'reflect_type': 'odd'}}, 'verbose': None}
+            cfg.store = {} if empty else {'max_imfs': 4, 'mask_amp': np.array([1.0, 0.5]), 'imf_opts': {'rilling_thresh': (0.05, 0.5, 0.05), 'stop_method': 'rilling'},
+                                          'extrema_opts': {'pad_width': 3, 'loc_pad_opts': {'mode': 'reflect', 'reflect_type': 'odd'}}, 'verbose': None}
             c.ghost['cfg'] = cfg
             c.ghost['before'] = copy.deepcopy(cfg.store)
             return (cfg,), {}
@@ -298,9 +298,10 @@ def units(tier):
         _obl(c, 'post:source-config-not-modified', set(src.store.keys()) == set(c.ghost['before'].keys()))
     for route in ('file', 'text'):
         quals = ['SiftConfig._get_yamlsafe_dict', 'SiftConfig.to_yaml_text', 'SiftConfig.to_yaml_file', 'SiftConfig.from_yaml_file', 'SiftConfig.from_yaml_stream']
-        u = Unit('yaml-roundtrip[%s]' % route, SIFT, '_array_or_tuple_to_list', mk_yaml(route), post_yaml, module=ES,
-                 inline=[(SIFT, q, {}) for q in quals], wrap_call=call_yaml(route))
-        U.append(u)
+        for empty in (False, True):        # (a configuration without any option is a valid configuration)
+            u = Unit('yaml-roundtrip[%s%s]' % (route, ',no options' if empty else ''), SIFT, '_array_or_tuple_to_list', mk_yaml(route, empty), post_yaml, module=ES,
+                     inline=[(SIFT, q, {}) for q in quals], wrap_call=call_yaml(route))
+            U.append(u)
 
     # ---- get_func
     def mk_gf(c):
@@ -463,7 +464,13 @@ def replay(w):
     with warnings.catch_warnings():
         warnings.simplefilter('ignore')
         if w.get('kind') == 'yaml':
-            cfg = S.get_config(w['variant'])
+            if w.get('start') == 'bare':            # a configuration holding no options at all: valid, runs the sift on its own defaults
+                cfg = S.SiftConfig(w['variant'])
+            else:
+                cfg = S.get_config(w['variant'])
+            if w.get('start') == 'emptied':
+                for k in list(cfg.keys()):
+                    del cfg[k]
             ref = _apply_edits(cfg, w['edits'])
             try:
                 if w['route'] == 'file':
@@ -575,6 +582,16 @@ def refute(tier, seed, emit):
                     emit.violation('yaml-roundtrip:%s' % route, w, msg)
         if emit.full:
             return
+    emit.scope('configurations with NO options (a bare SiftConfig(variant), and a default one emptied key by key), and with a single option: YAML file / text round trip keeps the sift type and the (empty) option set; the reloaded callable behaves like the variant called without options')
+    for v in variants:
+        for start in ('bare', 'emptied'):
+            for ed in ([], [['max_imfs', 2]]):
+                for route in ('file', 'text'):
+                    emit.case((v, start, len(ed), route), nontrivial=not ed, contract='SiftConfig.yaml')
+                    w = {'kind': 'yaml', 'variant': v, 'route': route, 'edits': ed, 'behaviour': v in ('sift', 'mask_sift'), 'start': start}
+                    ok, msg = replay(w)
+                    if ok:
+                        emit.violation('yaml-roundtrip:%s:empty-configuration' % route, w, msg)
     # seeded random edit sequences over the configuration's own key paths (every depth), values of every kind
     import emd
     r = rng(seed, 18)
